@@ -123,8 +123,10 @@ class TaskPool:
         if self._tasks:
             done, _ = await asyncio.wait(self._tasks, timeout=timeout, return_when=return_when)
         for task in done:
-            self._tasks.remove(task)
-            self._done.append(task)
+            # Another coroutine waiting on the pool may have already collected this task.
+            if task in self._tasks:
+                self._tasks.remove(task)
+                self._done.append(task)
         return len(done) > 0
 
 
